@@ -67,7 +67,7 @@ MATRIX = _matrix()
 
 def streams(ctx):
     return [("matrix", len(MATRIX)), ("random", ctx.scale(200, 5000)), ("argparse_return", ctx.scale(150, 3000)),
-            ("longdoc", ctx.scale(80, 1500)), ("shapes", ctx.scale(150, 3000))]
+            ("longdoc", ctx.scale(80, 1500)), ("shapes", ctx.scale(150, 3000)), ("big", ctx.scale(30, 500))]
 
 
 def _snap_ir(intermediate_repr):
@@ -184,9 +184,7 @@ def classify(fmt, ir, cfg, d):
             mech = "argparse.union-or-dotted-type-narrowed"
         elif where == "param" and field == "typ" and tk == "list" and dk == "absent" and how == "list->optional":
             mech = "argparse.list-without-default-becomes-optional"
-        elif where == "param" and field == "typ" and how in ("literal->str", "optional->optional") and \
-                single_member_literal(d.get("exp")) and "Literal" not in (got or ""):
-            mech = "argparse.single-member-literal-without-choices"
+
     else:
         types_in_docstring = fmt == "function" and ta is False
         if style == "numpydoc" and not types_in_docstring and field == "doc" and got is None:
@@ -238,6 +236,9 @@ def gen_case(ctx, stream, idx):
         # nested / single-member / spaced-member types, delimiter characters in str defaults, punctuation in prose
         return irgen.rand_ir(r, type_kinds=CORE_TKINDS + ("nested", "nested", "str", "literaldq"), nparams=r.randint(1, 6),
                              default_kinds=CORE_DKINDS + ("strodd", "strodd"), doc_kinds=("plain", "punct", "punct"))
+    if stream == "big":
+        return irgen.rand_ir(r, type_kinds=CORE_TKINDS, default_kinds=CORE_DKINDS, nparams=r.randint(10, 24), max_params=24,
+                             doc_kinds=("plain", "plain", "punct"))
     if stream == "longdoc":
         return irgen.rand_ir(r, type_kinds=CORE_TKINDS, default_kinds=CORE_DKINDS, nparams=r.randint(1, 4),
                              doc_kinds=("long", "long", "plain"))
